@@ -98,7 +98,7 @@ Definition spec_row_leb (h : list str) (columns : list str) (revs : list bool) (
 Definition spec_sorted (h : list str) (a : list (list cell)) (columns : list str) (revs : list bool) :=
   isort_by (spec_row_leb h columns revs) a.
 
-(* ------------------------------------------------------------------ sorting: the order the code realises *)
+(* ------------------------------------------------------------------ sorting: which key columns are reversed *)
 
 Fixpoint count_str (c : str) (l : list str) : nat :=
   match l with
@@ -106,34 +106,9 @@ Fixpoint count_str (c : str) (l : list str) : nat :=
   | x :: l' => ((if str_eqb c x then 1 else 0) + count_str c l')%nat
   end.
 
-(* the key numpy sorts by: a column listed k times in [reverse] went k times
-   through [reverse_cell] (negation / character translation) *)
-Definition code_key (h columns rev : list str) (row : list cell) : list cell :=
-  map (fun c => Nat.iter (count_str c rev) reverse_cell (nth (pos c h) row CN)) columns.
-
-Definition code_row_leb (h columns rev : list str) (r1 r2 : list cell) : bool :=
-  key_leb (code_key h columns rev r1) (code_key h columns rev r2).
-
-(* which key columns are reversed *)
+(* a key column is compared the other way round iff it is listed in [reverse] *)
 Definition rev_flags (columns rev : list str) : list bool :=
   map (fun c => Nat.odd (count_str c rev)) columns.
-
-(* where the translation trick is exact: code points below 256 and no value a
-   proper prefix of another *)
-Definition latin1 (s : str) : Prop := Forall (fun c => 0 <= c < 256) s.
-
-Fixpoint is_prefix (a b : str) : bool :=
-  match a, b with
-  | [], _ => true
-  | x :: a', y :: b' => (x =? y) && is_prefix a' b'
-  | _ :: _, [] => false
-  end.
-
-Definition col_reversible (col : list cell) : Prop :=
-  (Forall (fun x => exists z, x = CI z) col) \/
-  (Forall (fun x => exists s, x = CS s /\ latin1 s) col /\
-   forall s1 s2, In (CS s1) col -> In (CS s2) col ->
-     s1 = s2 \/ (is_prefix s1 s2 = false /\ is_prefix s2 s1 = false)).
 
 (* ------------------------------------------------------------------ delimited text *)
 
